@@ -77,7 +77,7 @@ func (d *Decoder) newTokenNameError(err error, t xml.Token) error {
 }
 
 func (d *Decoder) newTokenAttrError(err error, t unifiedAttr) error {
-	if d.tokenMetadata == nil || t.Metadata == nil {
+	if d.tokenMetadata == nil || t.Metadata == nil || t.Metadata == emptyAttrMetadata {
 		return err
 	}
 
